@@ -288,8 +288,119 @@ func c11Queued(cs c11QCase) (*fw.Violation, *harness.Client) {
 	return nil, h
 }
 
+// c11Fail: the transport fails with requests in flight. Their HEADERS have reached the server, which never
+// disclaimed them: whatever ends them, they are not retryable and must not be sent again.
+type c11FCase struct {
+	InFlight int    `json:"in_flight"` // requests whose HEADERS the server has
+	Kind     string `json:"kind"`      // what happens to the connection
+	New      int    `json:"new"`       // requests issued when the outbound half is already dead
+	Answered bool   `json:"first_partly_answered,omitempty"`
+}
+
+func c11Fail(cs c11FCase) (*fw.Violation, *harness.Client) {
+	h := harness.NewClient(harness.ClientOpts{})
+	shape := fmt.Sprintf("transport-failure %s in-flight=%d new=%d", cs.Kind, cs.InFlight, cs.New)
+	mk := func(rule, detail string) *fw.Violation {
+		return &fw.Violation{Rule: rule, Shape: shape, Detail: detail + "\n    events: " + strings.Join(h.EventLog, " ; ") + fmt.Sprintf("\n    live: %v", h.Live()), Replay: map[string]any{"family": "c11fail", "case": cs}}
+	}
+	var calls []*harness.CCall
+	spec := func(i int) harness.ReqSpec {
+		return harness.ReqSpec{Tag: fmt.Sprint("r", i), Method: "GET", Path: fmt.Sprint("/r", i), Headers: [][2]string{{"X-Tag", fmt.Sprint("r", i)}}}
+	}
+	for i := 0; i < cs.InFlight; i++ {
+		calls = append(calls, h.Go(spec(i)))
+	}
+	if len(h.Conns) != 1 || len(h.Conns[0].Order) != cs.InFlight {
+		return mk("harness", "setup failed"), h
+	}
+	srv := h.Conns[0]
+	if cs.Answered {
+		h.Send(0, srv.RespFrames(srv.Order[0], []ref.Field{{Name: ":status", Value: "200"}}, nil, nil, [][]byte{[]byte("part"), []byte("never sent")}, -1)[:2]...)
+	}
+	switch cs.Kind {
+	case "writes-fail":
+		srv.C.FailNextWrite()
+	case "writes-fail-then-server-closes":
+		srv.C.FailNextWrite()
+	case "server-closes":
+		h.ServerClose(0)
+	}
+	for i := 0; i < cs.New; i++ {
+		calls = append(calls, h.Go(spec(cs.InFlight+i)))
+	}
+	if cs.Kind == "writes-fail-then-server-closes" {
+		h.ServerClose(0)
+	}
+	for i := 0; i < 12; i++ {
+		pending := false
+		for _, c := range calls[:cs.InFlight] {
+			pending = pending || !c.Done
+		}
+		if !pending || !h.FireTimer("") {
+			break
+		}
+	}
+	where := map[string][]string{}
+	for ci, sc := range h.Conns {
+		for _, id := range sc.Order {
+			where[hdrVal(sc.Streams[id].Fields, "x-tag")] = append(where[hdrVal(sc.Streams[id].Fields, "x-tag")], fmt.Sprintf("%d/%d", ci, id))
+		}
+	}
+	for i, c := range calls[:cs.InFlight] {
+		tag := fmt.Sprint("r", i)
+		if len(where[tag]) > 1 {
+			return mk("request-sent-twice", fmt.Sprintf("request %s, whose HEADERS the first server had and never disclaimed, reached servers on %v", tag, where[tag])), h
+		}
+		if c.Done && c.Retry {
+			return mk("retryable-although-possibly-processed", fmt.Sprintf("request %s (HEADERS received by the server, no GOAWAY, no REFUSED_STREAM) reported retryable: %v", tag, c.Err)), h
+		}
+		if c.Done && c.Err == nil {
+			return mk("success-without-response", fmt.Sprintf("request %s reports success, no server completed a response", tag)), h
+		}
+		if c.Resolved > 1 {
+			return mk("resolved-more-than-once", fmt.Sprintf("request %s: RoundTrip returned %d times", tag, c.Resolved)), h
+		}
+	}
+	if len(h.S.Panics) > 0 {
+		return mk("process-would-crash", strings.Join(h.S.Panics, "; ")), h
+	}
+	return nil, h
+}
+
 func runC11(c *fw.Ctx) {
 	runSpxFamily(c, "C11")
+	{
+		var item int64 = 1 << 44
+		for inflight := 1; inflight <= 3; inflight++ {
+			for _, kind := range []string{"writes-fail", "writes-fail-then-server-closes", "server-closes"} {
+				for nw := 0; nw <= 2; nw++ {
+					for _, ans := range []bool{false, true} {
+						if kind != "server-closes" && nw == 0 {
+							continue // nothing is written: the failure is never met
+						}
+						if item++; !c.Mine(item) {
+							continue
+						}
+						cs := c11FCase{InFlight: inflight, Kind: kind, New: nw, Answered: ans}
+						v, h := c11Fail(cs)
+						js, _ := json.Marshal(cs)
+						c.Eval(nt(true, append([]byte("fail"), js...)))
+						c.AddTransitions(int64(h.Events))
+						c.AddTraces(1)
+						c.State(fw.Hash("fail", h.Digest()))
+						if v != nil {
+							c.Violate(*v)
+							c.Outcome(v.Rule)
+						} else {
+							c.Outcome("honoured:transport-failure")
+						}
+						h.Close()
+					}
+				}
+			}
+		}
+		c.Family("transport-failure-with-requests-in-flight")
+	}
 	{
 		var item int64 = 1 << 45
 		for inflight := 1; inflight <= 2; inflight++ {
@@ -426,6 +537,16 @@ func replayC11(raw json.RawMessage) (string, bool) {
 	}
 	if json.Unmarshal(raw, &fam) == nil && fam.Family == "c11queued" {
 		return replayC11Queued(fam.Case)
+	}
+	if fam.Family == "c11fail" {
+		var cs c11FCase
+		json.Unmarshal(fam.Case, &cs)
+		v, h := c11Fail(cs)
+		defer h.Close()
+		if v != nil {
+			return v.Rule + " [" + v.Shape + "]: " + v.Detail, true
+		}
+		return "requests in flight neither retried nor called retryable: " + strings.Join(h.EventLog, " ; "), false
 	}
 	var r struct {
 		Case c11Case `json:"case"`
